@@ -23,7 +23,7 @@ PROPS = {
     ),
     "C03": dict(
         level="exploration",
-        runs=dict(quick=16000, thorough=250000),
+        runs=dict(quick=16000, thorough=300000),
         rule="family comm through Communicator with generated sequences of limit_size (1, 2, 4095, 4096, 4097, huge, random) and occasional limit_time; non-trivial = a limit cut a read while more data was buffered; distinct as C01",
         assumptions=COMMON_ASSUME,
         expect_probes=["limit_cut_with_more_buffered"],
@@ -37,21 +37,21 @@ PROPS = {
     ),
     "C05": dict(
         level="exploration",
-        runs=dict(quick=25000, thorough=400000),
+        runs=dict(quick=100000, thorough=1500000),
         rule="family spawn: run index mod 125 enumerates the 5x5x5 assignments of {None, Pipe, File, RcFile, Merge} to (stdin, stdout, stderr) for the first spawn (variants: shared Rc, try_clone of the same description), 0-2 further random spawns on the same thread, via Popen::create or Exec; identity of open file descriptions at the child's fds 0/1/2 compared with the model; non-trivial = a program image was started or a refusal was observed; distinct as C01",
         assumptions=COMMON_ASSUME,
         exhaustive_note="all 125 combinations are covered in every quick run (index mod 125)",
     ),
     "C06": dict(
         level="exploration",
-        runs=dict(quick=25000, thorough=400000),
+        runs=dict(quick=80000, thorough=1200000),
         rule="family spawn: generated argument vectors (0-300 entries, arbitrary non-NUL bytes, up to 40 kB), executable override, env lists with duplicate keys, cwd present/absent/relative, setuid/setgid/setpgid combinations with the parent simulated as root or ordinary user, NUL injected in arguments/keys/values/executable; exec record (marshalled by the library in a really forked child) compared with the model; non-trivial = started or rejected with an OS error; distinct as C01",
         assumptions=COMMON_ASSUME + ["credential rules of setuid/setgid as in Appendix A (Linux)"],
         expect_probes=["nul_rejected"],
     ),
     "C07": dict(
         level="fault_enumeration",
-        runs=dict(quick=25600, thorough=409600),
+        runs=dict(quick=102400, thorough=1638400),
         rule="family spawn: configuration = index/64 (streams, cwd, ids, detached, PATH search), injection point = index%64: no fault; k-th descriptor allocation (1..10); k-th fcntl(F_SETFD) (1..12); fork (EAGAIN/ENOMEM); each child-side step (chdir, dup2, setuid, setgid, setpgid) x errno table; exec candidate 0..3 x errno table; natural causes (missing, non-executable, directory, not a binary, bad cwd, refused identity change, unsearchable directory); second spawn failing while the first is alive; non-trivial = a fault fired or a natural failure cause was hit; distinct as C01",
         assumptions=COMMON_ASSUME + ["failing close() and EINTR are not injected (the property does not state behaviour under them)"],
         expect_probes=["alloc_fd_fail", "fcntl_fail", "fork_fail", "child_step_fail", "exec_errno"],
@@ -64,68 +64,66 @@ PROPS = {
     ),
     "C09": dict(
         level="exploration",
-        runs=dict(quick=40000, thorough=800000),
+        runs=dict(quick=100000, thorough=1500000),
         rule="family status: random histories (2-12) of poll/wait/wait_timeout/pid/exit_status/terminate/kill/send_signal/detach and harness-side time advances against a child ending with any exit code 0-255 or any fatal signal at a generated instant; one run in three with a foreign reaper and pid reuse (small pid range, bystander processes); non-trivial = the child ended inside a wait_timeout, a signal was delivered, or a foreign reap happened; distinct as C01",
         assumptions=COMMON_ASSUME,
         expect_probes=["foreign_reap", "undetermined_after_foreign_reap", "child_exit_inside_wait_timeout"],
     ),
     "C10": dict(
         level="exploration",
-        runs=dict(quick=40000, thorough=800000),
+        runs=dict(quick=100000, thorough=1500000),
         rule="family status (same histories as C09); oracle over the log of kill() calls: before the Popen has observed termination exactly one kill(child pid, requested signal) per call, after observation none and Ok; non-trivial as C09",
         assumptions=COMMON_ASSUME + ["a signal sent to a pid that foreign code reaped before the Popen could know is not flagged (the property does not forbid it)"],
         expect_probes=["foreign_reap", "pid_reuse"],
     ),
     "C11": dict(
         level="exploration",
-        runs=dict(quick=40000, thorough=800000),
+        runs=dict(quick=100000, thorough=1500000),
         rule="family status on the virtual clock: wait_timeout(d) with d in {0, sub-ms, ms, s, hours, 26 d, 8 weeks} x child exit before / inside a back-off interval / at the deadline / never; poll at random instants; every third run with late timers and stalls; non-trivial = wait_timeout(d>0) ran to its deadline or the child ended inside the call; distinct as C01",
         assumptions=COMMON_ASSUME + ["long timeouts without child exit are bounded to 10 min (quick) / 3 h in 1 of 97 runs so that the 100 ms back-off loop stays within the step budget"],
         expect_probes=["child_exit_inside_wait_timeout", "timer_late", "stall"],
     ),
     "C12": dict(
         level="exploration",
-        runs=dict(quick=6000, thorough=100000),
-        deadline=dict(quick=90, thorough=1200),
-        rule="family drop: owner in {Popen (caller-releasable ends released first), join, capture, stream_stdout, stream_stderr, stream_stdin, pipeline adapters, pipeline join/capture} x child behaviour (exits early/late, reads to EOF, writes more than a pipe holds, unbounded writer) x drop point (nothing / part / everything consumed) x detached; non-trivial = a pipe was full, data was pending or a child was still alive at the drop; distinct as C01",
+        runs=dict(quick=8000, thorough=120000),
+                rule="family drop: owner in {Popen (caller-releasable ends released first), join, capture, stream_stdout, stream_stderr, stream_stdin, pipeline adapters, pipeline join/capture} x child behaviour (exits early/late, reads to EOF, writes more than a pipe holds, unbounded writer) x drop point (nothing / part / everything consumed) x detached; non-trivial = a pipe was full, data was pending or a child was still alive at the drop; distinct as C01",
         assumptions=COMMON_ASSUME,
     ),
     "C13": dict(
         level="exploration",
-        runs=dict(quick=8000, thorough=120000),
-        deadline=dict(quick=90, thorough=1200),
-        rule="family pipeline: 2-6 stages built as a|b|c, from_exec_iter, pipeline|pipeline, Pipeline::new|c; each stage a tagged non-commutative filter x -> 3x+tag that writes numbered stderr lines and exits with its own code; pipeline stdin in {inherit, pipe, data, file, null}, stdout in {inherit, pipe, file, null}, all terminators; non-trivial = more than 4 KiB flowed through or stderr lines were produced; distinct as C01",
+        runs=dict(quick=12000, thorough=200000),
+                rule="family pipeline: 2-6 stages built as a|b|c, from_exec_iter, pipeline|pipeline, Pipeline::new|c; each stage a tagged non-commutative filter x -> 3x+tag that writes numbered stderr lines and exits with its own code; pipeline stdin in {inherit, pipe, data, file, null}, stdout in {inherit, pipe, file, null}, all terminators; non-trivial = more than 4 KiB flowed through or stderr lines were produced; distinct as C01",
         assumptions=COMMON_ASSUME,
     ),
     "C14": dict(
         level="fault_enumeration",
-        runs=dict(quick=16000, thorough=250000),
+        runs=dict(quick=32000, thorough=500000),
         rule="family pipeline with a failing stage k (every position): program missing, exec errno, fork failure, descriptor exhaustion at a random ordinal; x pipeline stdin kinds x every terminator x detached stages; earlier stages read stdin to EOF; non-trivial = the start-up really failed; distinct as C01",
         assumptions=COMMON_ASSUME,
         expect_probes=["pipeline_start_failed"],
     ),
     "C15": dict(
         level="exploration",
-        runs=dict(quick=25000, thorough=400000),
+        runs=dict(quick=100000, thorough=1500000),
         rule="family spawn: simulated file system with 0-8 PATH entries (empty, duplicate, missing, unsearchable, very long, relative, a file), candidates executable / non-executable / directory / not-a-binary placed at random entries, names of length 1..255, names with a slash relative to the child's cwd, executable override, per-candidate injected exec errors; non-trivial = more than one candidate was tried or nothing could be started; distinct as C01",
         assumptions=COMMON_ASSUME,
         expect_probes=["path_search_all_failed", "path_search_skipped_candidates"],
     ),
     "C16": dict(
         level="exploration",
-        runs=dict(quick=40000, thorough=800000),
+        runs=dict(quick=120000, thorough=2000000),
         rule="family builder: random sequences (0-14) of arg/args/env/env_extend/env_remove/env_clear/cwd/stdin/stdout/stderr/detached/clone followed by any terminator, checked against a plain record model (panic iff the model says refused; else exec record argv/env/cwd equal the model, for original and clone independently); no schedule or fault dimension (stated); non-trivial = at least three calls or a clone; distinct as C01",
         assumptions=COMMON_ASSUME + ["a piped stdin that nobody feeds (caller error) is not generated"],
     ),
     "C17": dict(
         level="exploration",
-        runs=dict(quick=25000, thorough=400000),
+        runs=dict(quick=100000, thorough=1500000),
         rule="family spawn with the counting allocator armed in the really forked child: command-name lengths 1..255, PATH of 0-11 entries with the longest at a random position, 0-40 arguments, 0-60 environment entries, cwd lengths 1..4000 across std's 384-byte stack buffer, all stream configurations, exec succeeding at candidate j or failing everywhere, injected child-step failures; non-trivial = always (every run forks); distinct as C01",
         assumptions=COMMON_ASSUME + ["allocations made by harness code inside interposed calls are excluded by a depth flag"],
     ),
     "C18": dict(
         level="exploration",
-        runs=dict(quick=25000, thorough=400000),
+        runs=dict(quick=80000, thorough=1200000),
         rule="family spawn: spawning thread's mask in {empty, one signal, random subset, all blockable}, parent SIGPIPE in {ignored, default, handler}; exec record's mask and SIGPIPE disposition checked for every child, plus the consequence: a flooding child whose reader goes away must die of SIGPIPE; non-trivial = always; distinct as C01",
         assumptions=COMMON_ASSUME,
         expect_probes=["sigpipe_consequence_checked"],
